@@ -1163,9 +1163,10 @@ class _Frame:
             x = I._obj(args[0])
             ax = self._axis(args, kwargs, 1)
             return I.osum(x, axis=ax, keepdims=bool(kwargs.get("keepdim", False)))
-        if n in ("sqrt", "exp", "log", "abs", "square", "cos", "sin", "sign", "rsqrt", "sigmoid", "tanh"):
+        if n in ("sqrt", "exp", "log", "abs", "square", "cos", "sin", "sign", "rsqrt", "sigmoid", "tanh", "expm1", "log1p"):
             fn = {"sqrt": sp.sqrt, "exp": sp.exp, "log": sp.log, "abs": sp.Abs, "square": lambda t: t ** 2, "cos": sp.cos, "sin": sp.sin, "sign": sp.sign,
-                  "rsqrt": lambda t: 1 / sp.sqrt(t), "sigmoid": lambda t: 1 / (1 + sp.exp(-t)), "tanh": sp.tanh}[n]
+                  "rsqrt": lambda t: 1 / sp.sqrt(t), "sigmoid": lambda t: 1 / (1 + sp.exp(-t)), "tanh": sp.tanh, "expm1": lambda t: sp.exp(t) - 1,
+                  "log1p": lambda t: sp.log(1 + t)}[n]
             return self._elementwise(fn, args[0])
         if n == "pow":
             return self.binop(ast.Pow(), args[0], args[1], e)
